@@ -1,7 +1,9 @@
 // C04 harness driver (package rtmp, injected with go test -overlay, run with -race).
 //
 // A case is ((req..) (event..)) with req = (tid name fail [pad]): pad = bytes of padding strings in the
-// command object (request size); name 1 connect, 2 createStream, 0 a call
+// command object (request size); name 1 connect, 2 createStream (requests: expect a response), 0 a call
+// (releaseStream), 3 / 4 our response to the peer's connect / createStream, 5 publish, 6 play (none of them
+// has a transaction, whatever its transaction id field says); name 0 a call
 // that expects no response; fail=1: the transport fails from the write of this request on.
 //   event = (0 k (a..))  WritePacket(request k) on the writer goroutine; while the transport Write
 //                        that carries k is in progress the peer answers the requests a.. (each
@@ -127,14 +129,35 @@ func vC04Request(q vC04Req) Packet {
 		}
 		return p
 	}
+	switch q.name {
+	case 3: // our response to the peer's connect
+		return NewConnectAppResPacket(amf0.Number(q.tid))
+	case 4: // our response to the peer's createStream (both sides number independently)
+		r := NewCreateStreamResPacket(amf0.Number(q.tid))
+		r.StreamID = amf0.Number(1)
+		return r
+	case 5:
+		pp := NewPublishPacket()
+		pp.TransactionID = amf0.Number(q.tid)
+		pp.StreamName = amf0.String("s")
+		return pp
+	case 6:
+		pp := NewPlayPacket()
+		pp.TransactionID = amf0.Number(q.tid)
+		pp.StreamName = amf0.String("s")
+		return pp
+	}
 	p := NewCallPacket()
-	p.CommandName = amf0.String("verifCall")
+	p.CommandName = amf0.String("releaseStream")
 	p.TransactionID = amf0.Number(q.tid)
 	if q.pad > 0 {
 		p.CommandObject = vC04Pad(q.pad)
 	}
 	return p
 }
+
+// only connect and createStream requests expect a response
+func vC04Needs(q vC04Req) bool { return (q.name == 1 || q.name == 2) && q.tid > 0 }
 
 // number of bytes WritePacket(q) puts on the wire at output chunk size cs: reference encoding by a
 // separate Protocol instance
@@ -190,7 +213,7 @@ func vC04ParseReqs(l vSx) ([]vC04Req, bool) {
 		dead = dead || reqs[i].fail
 		reqs[i].fail = dead
 	}
-	return reqs, len(reqs) <= 64
+	return reqs, len(reqs) <= 4096
 }
 
 func vC04TableSize(p *Protocol) int {
@@ -231,7 +254,7 @@ func vC04Run(c vSx) (vSx, []vC04Fail, bool) {
 	var log []vSx
 	nontrivial := false
 	answer := func(k int, inside bool) bool {
-		if k < 0 || k >= len(reqs) || !sent[k] || answered[k] || reqs[k].name == 0 || reqs[k].tid <= 0 {
+		if k < 0 || k >= len(reqs) || !sent[k] || answered[k] || !vC04Needs(reqs[k]) {
 			return false
 		}
 		answered[k] = true
@@ -351,7 +374,7 @@ func vC04Run(c vSx) (vSx, []vC04Fail, bool) {
 	tab := vC04TableSize(p)
 	want := 0
 	for k, q := range reqs {
-		if sent[k] && !answered[k] && q.name != 0 && q.tid > 0 {
+		if sent[k] && !answered[k] && vC04Needs(q) {
 			want++
 		}
 	}
@@ -486,7 +509,7 @@ func vC04Schedule(reqs []vC04Req, slots []int, reverse bool) vSx {
 	for j := 0; j < n; j++ {
 		var inside, after []vSx
 		for k := 0; k <= j; k++ {
-			if reqs[k].fail || reqs[k].name == 0 {
+			if reqs[k].fail || !vC04Needs(reqs[k]) {
 				continue
 			}
 			if slots[k] == 1+2*(j-k) {
@@ -500,7 +523,7 @@ func vC04Schedule(reqs []vC04Req, slots []int, reverse bool) vSx {
 			inside = nil // nothing is handed to the transport: the peers cannot answer during it
 			// answers planned "during" a failed write happen right after it instead
 			for k := 0; k < j; k++ {
-				if !reqs[k].fail && reqs[k].name != 0 && slots[k] == 1+2*(j-k) {
+				if !reqs[k].fail && vC04Needs(reqs[k]) && slots[k] == 1+2*(j-k) {
 					after = append(after, vL(vZ(1), vI(k)))
 				}
 			}
@@ -613,6 +636,68 @@ func TestVerifC04(t *testing.T) {
 			runOne(vL(base.l[0], vLs(evs)))
 			k.count("chunk-size", fmt.Sprint(cs))
 		}
+	}
+	// pipelining: d requests outstanding at once, answered in order / reversed / late
+	depths := []int{1, 2, 63, 64, 65, 200}
+	if k.thorough() {
+		depths = append(depths, 1000)
+	}
+	for _, d := range depths {
+		for variant := 0; variant < 3; variant++ {
+			n := d
+			if variant == 2 {
+				n = 2 * d // a second wave is written before anything is answered
+			}
+			if n > 2000 {
+				continue
+			}
+			reqs := make([]vC04Req, n)
+			slots := make([]int, n)
+			for i := range reqs {
+				reqs[i] = vC04Req{tid: 1 + i, name: 1 + i%2}
+				slots[i] = 2 + 2*(n-1-i) // right after the LAST WritePacket returned
+			}
+			runOne(vC04Schedule(reqs, slots, variant >= 1))
+			k.count("pipeline-depth", fmt.Sprint(n))
+		}
+	}
+	// every packet kind, both directions numbering independently (the same transaction ids on calls,
+	// on our responses to the peer's requests, on publish/play, as on our outstanding requests), with
+	// a transport write fault on any of them while the read side keeps delivering
+	for i, cnt := 0, k.N(300, 3000); i < cnt; i++ {
+		r := k.rnd
+		n := r.rng(2, 9)
+		reqs := make([]vC04Req, n)
+		slots := make([]int, n)
+		var out []int // tids of our outstanding requests so far
+		tid := 0
+		failAt := -1
+		if r.chance(2, 3) {
+			failAt = r.intn(n)
+		}
+		for j := range reqs {
+			kind := r.pickInt(1, 2, 2, 0, 0, 3, 4, 5, 6)
+			if j == 0 {
+				kind = r.pickInt(1, 2, 2)
+			}
+			q := vC04Req{name: kind, fail: j == failAt}
+			if kind == 1 || kind == 2 {
+				tid += r.rng(1, 2)
+				q.tid = tid
+				out = append(out, tid)
+			} else if len(out) > 0 && r.chance(3, 4) {
+				q.tid = out[r.intn(len(out))] // the SAME number as one of our outstanding requests
+			} else {
+				q.tid = r.intn(4)
+			}
+			reqs[j] = q
+			slots[j] = r.intn(2*(n-j) + 1)
+			if r.chance(1, 2) {
+				slots[j] = 2 + 2*(n-1-j) // answered after everything has been written (or has failed)
+			}
+		}
+		runOne(vC04Schedule(reqs, slots, r.chance(1, 2)))
+		k.count("kind", "mixed-kinds")
 	}
 	// random: transport failures, packets that expect no response, larger histories
 	cnt := k.N(300, 5000)
